@@ -126,7 +126,7 @@ def gramStep (g : GState) (hi : Nat) (e : Ev) (as : List Action) : Option (GStat
     | .data _ .change _ _ => match g with | .inTxn _ => some (g, hi) | .idle => none
     | .data lsn (.commit x) _ _ =>
       match g with
-      | .inTxn y => if x = y ∧ hi < lsn then some (.idle, lsn) else none
+      | .inTxn y => if x = y then some (.idle, max hi lsn) else none   -- a re-sent transaction repeats its COMMIT position
       | .idle => none
     | .data _ _ _ _ => none
     | .keepalive .. | .nil | .timeout | .skip => some (g, hi)
@@ -193,6 +193,8 @@ def commitKeys (as : List Action) : List String :=
 
 def c07KeysUnique (h : Hist) : Bool := distinct (beginKeys (acts h))
 def c07OneCommit (h : Hist) : Bool := !noErrorResponse h || distinct (commitKeys (acts h))
+/-- full strength (error responses included): what the code satisfies since the repair of F2 -/
+def c07OneCommitFull (h : Hist) : Bool := distinct (commitKeys (acts h))
 
 /-- "PostgreSQL starts a new transaction while the previous one has no COMMIT": `pending` = a BEGIN
 was accepted and no COMMIT was received since. Such a BEGIN must not be forwarded, the connection
